@@ -1,4 +1,24 @@
-(* placeholder, replaced when the proofs for C09 are merged *)
-From Demes Require Import Base.Num.
-Theorem C09_placeholder : True.
-Proof. exact I. Qed.
+(* C09 — graph to ms and back preserves the model; option strings print and parse back.
+   Theorems only.  The round trip itself is decided by translation validation: the graph
+   returned by from_ms(to_ms(g)) is compared with g by the semantic comparer of
+   coq/Spec/SemEquiv.v (extracted), see the check.  What is proved here is the second clause:
+   negative numbers are printed by float_str as format(a, ".10f"); fixed10 n d is that text's
+   digit string for the exact binary value a = n/d (compared digit for digit with Python's
+   format on generated values by the check).  The printed value is within half a unit of the
+   tenth decimal of a, and it never becomes positive, so the text always has the shape
+   "-digits.digits" that argparse takes as a negative number, not as an option.
+   Non-negative numbers are printed with str(a) (shortest round-trip repr: float(str(a)) == a is
+   a property of CPython's float formatting, tested, not modelled). *)
+From Coq Require Import ZArith.
+From Demes Require Import Model.FloatStr.
+Local Open Scope Z_scope.
+
+Theorem C09_fixed10_error n d :
+  0 < d -> 2 * Z.abs (fixed10 n d * d - n * 10 ^ 10) <= d.
+Proof. exact (fixed10_error n d). Qed.
+
+Theorem C09_fixed10_stays_nonpositive n d : 0 < d -> n < 0 -> fixed10 n d <= 0.
+Proof. exact (fixed10_nonpos n d). Qed.
+
+Print Assumptions C09_fixed10_error.
+Print Assumptions C09_fixed10_stays_nonpositive.
